@@ -414,14 +414,58 @@ pub struct Recorder {
 
 pub type SharedRecorder = Arc<Mutex<Recorder>>;
 
+/// A real storage backend of the repository that the recording storage forwards every call to (tee), so
+/// that the sampler's commands and interleavings also hit real backend code (C10: "... and storage
+/// backends"). Only in-memory backends without threads of their own.
+#[derive(Clone, Copy, Debug, Serialize, Deserialize, PartialEq, Default)]
+pub enum RealBackend {
+    #[default]
+    None,
+    HashMap,
+    Ndarray,
+}
+
+type HmTrace = <nuts_rs::HashMapConfig as StorageConfig>::Storage;
+type HmChain = <HmTrace as TraceStorage>::ChainStorage;
+type HmChainFinal = <HmChain as ChainStorage>::Finalized;
+type NdTrace = <nuts_rs::NdarrayConfig as StorageConfig>::Storage;
+type NdChain = <NdTrace as TraceStorage>::ChainStorage;
+type NdChainFinal = <NdChain as ChainStorage>::Finalized;
+
+enum RealTrace {
+    None,
+    HashMap(HmTrace),
+    Ndarray(NdTrace),
+}
+
+enum RealChain {
+    None,
+    HashMap(HmChain),
+    Ndarray(NdChain),
+}
+
+pub enum RealChainFinal {
+    None,
+    HashMap(HmChainFinal),
+    Ndarray(NdChainFinal),
+}
+
+pub struct RecChainFinal {
+    pub id: u64,
+    pub digests: Vec<u64>,
+    pub real: RealChainFinal,
+}
+
 pub struct RecConfig {
     pub rec: SharedRecorder,
     pub faults: StoreFaults,
+    pub backend: RealBackend,
 }
 
 pub struct RecTrace {
     rec: SharedRecorder,
     faults: StoreFaults,
+    real: RealTrace,
 }
 
 pub struct RecChain {
@@ -430,24 +474,84 @@ pub struct RecChain {
     chain: u64,
     calls: u64,
     digests: Vec<u64>,
+    real: RealChain,
 }
 
 /// What a finalized / inspected trace looks like: per chain the digests of the recorded draws.
 #[derive(Clone, Debug, Default, PartialEq)]
 pub struct RecFinal {
     pub chains: Vec<(u64, Vec<u64>)>,
+    /// digest of what the real backend returned (Err: the backend's call failed)
+    pub real: Option<std::result::Result<u64, String>>,
+}
+
+fn canon_bits(x: f64) -> u64 {
+    if x.is_nan() { f64::NAN.to_bits() } else { x.to_bits() }
+}
+
+fn digest_hashmap(res: &[nuts_rs::verif::HashMapResult]) -> u64 {
+    use nuts_rs::HashMapValue as V;
+    let mut d = Digest::new();
+    for (c, r) in res.iter().enumerate() {
+        d.u64(c as u64);
+        for (g, m) in [("stats", &r.stats), ("draws", &r.draws)] {
+            let mut keys: Vec<&String> = m.keys().collect();
+            keys.sort();
+            for k in keys {
+                d.str(g);
+                d.str(k);
+                match &m[k] {
+                    V::F64(v) => v.iter().for_each(|x| d.u64(canon_bits(*x))),
+                    V::F32(v) => v.iter().for_each(|x| d.u64(canon_bits(*x as f64))),
+                    V::Bool(v) => v.iter().for_each(|x| d.bool(*x)),
+                    V::I64(v) => v.iter().for_each(|x| d.u64(*x as u64)),
+                    V::U64(v) => v.iter().for_each(|x| d.u64(*x)),
+                    V::String(v) => v.iter().for_each(|x| d.str(x)),
+                }
+            }
+        }
+    }
+    d.0
+}
+
+fn digest_ndarray(t: &nuts_rs::NdarrayTrace) -> u64 {
+    use nuts_rs::NdarrayValue as V;
+    let mut d = Digest::new();
+    for (g, m) in [("stats", &t.stats), ("draws", &t.draws)] {
+        let mut keys: Vec<&String> = m.keys().collect();
+        keys.sort();
+        for k in keys {
+            d.str(g);
+            d.str(k);
+            match &m[k] {
+                V::F64(v) => { v.shape().iter().for_each(|x| d.u64(*x as u64)); v.iter().for_each(|x| d.u64(canon_bits(*x))) }
+                V::F32(v) => { v.shape().iter().for_each(|x| d.u64(*x as u64)); v.iter().for_each(|x| d.u64(canon_bits(*x as f64))) }
+                V::Bool(v) => { v.shape().iter().for_each(|x| d.u64(*x as u64)); v.iter().for_each(|x| d.bool(*x)) }
+                V::I64(v) => { v.shape().iter().for_each(|x| d.u64(*x as u64)); v.iter().for_each(|x| d.u64(*x as u64)) }
+                V::U64(v) => { v.shape().iter().for_each(|x| d.u64(*x as u64)); v.iter().for_each(|x| d.u64(*x)) }
+                V::String(v) => { v.shape().iter().for_each(|x| d.u64(*x as u64)); v.iter().for_each(|x| d.str(x)) }
+            }
+        }
+    }
+    d.0
 }
 
 impl StorageConfig for RecConfig {
     type Storage = RecTrace;
-    fn new_trace<M: Math>(self, _settings: &impl Settings, _math: &M) -> Result<RecTrace> {
+    fn new_trace<M: Math>(self, settings: &impl Settings, math: &M) -> Result<RecTrace> {
         if self.faults.new_trace_err {
             self.rec.lock().unwrap().faults_fired.push("new_trace_err".into());
             return Err(anyhow!("simulated new_trace failure"));
         }
+        let real = match self.backend {
+            RealBackend::None => RealTrace::None,
+            RealBackend::HashMap => RealTrace::HashMap(nuts_rs::HashMapConfig::new().new_trace(settings, math)?),
+            RealBackend::Ndarray => RealTrace::Ndarray(nuts_rs::NdarrayConfig::new().new_trace(settings, math)?),
+        };
         Ok(RecTrace {
             rec: self.rec,
             faults: self.faults,
+            real,
         })
     }
 }
@@ -461,27 +565,43 @@ impl TraceStorage for RecTrace {
             self.rec.lock().unwrap().faults_fired.push(format!("init_chain_err@{chain_id}"));
             return Err(anyhow!("simulated initialize_trace_for_chain failure for chain {chain_id}"));
         }
+        let real = match &self.real {
+            RealTrace::None => RealChain::None,
+            RealTrace::HashMap(t) => RealChain::HashMap(t.initialize_trace_for_chain(chain_id)?),
+            RealTrace::Ndarray(t) => RealChain::Ndarray(t.initialize_trace_for_chain(chain_id)?),
+        };
         Ok(RecChain {
             rec: self.rec.clone(),
             faults: self.faults.clone(),
             chain: chain_id,
             calls: 0,
             digests: vec![],
+            real,
         })
     }
 
-    fn finalize(self, traces: Vec<Result<(u64, Vec<u64>)>>) -> Result<(Option<anyhow::Error>, RecFinal)> {
+    fn finalize(self, traces: Vec<Result<RecChainFinal>>) -> Result<(Option<anyhow::Error>, RecFinal)> {
         let mut rec = self.rec.lock().unwrap();
         rec.trace_finalized = true;
         if self.faults.trace_finalize_err {
             rec.faults_fired.push("trace_finalize_err".into());
             return Err(anyhow!("simulated trace finalize failure"));
         }
+        drop(rec);
         let mut err = None;
         let mut chains = vec![];
+        let mut hm: Vec<Result<HmChainFinal>> = vec![];
+        let mut nd: Vec<Result<NdChainFinal>> = vec![];
         for t in traces {
             match t {
-                Ok(c) => chains.push(c),
+                Ok(c) => {
+                    chains.push((c.id, c.digests));
+                    match c.real {
+                        RealChainFinal::None => {}
+                        RealChainFinal::HashMap(x) => hm.push(Ok(x)),
+                        RealChainFinal::Ndarray(x) => nd.push(Ok(x)),
+                    }
+                }
                 Err(e) => {
                     if err.is_none() {
                         err = Some(e)
@@ -490,21 +610,44 @@ impl TraceStorage for RecTrace {
             }
         }
         chains.sort_by_key(|c| c.0);
-        Ok((err, RecFinal { chains }))
+        let real = match self.real {
+            RealTrace::None => None,
+            RealTrace::HashMap(t) => Some(match t.finalize(hm) {
+                Ok((None, f)) => Ok(digest_hashmap(&f)),
+                Ok((Some(e), _)) => Err(format!("{e:#}")),
+                Err(e) => Err(format!("{e:#}")),
+            }),
+            RealTrace::Ndarray(t) => Some(match t.finalize(nd) {
+                Ok((None, f)) => Ok(digest_ndarray(&f)),
+                Ok((Some(e), _)) => Err(format!("{e:#}")),
+                Err(e) => Err(format!("{e:#}")),
+            }),
+        };
+        Ok((err, RecFinal { chains, real }))
     }
 
-    fn inspect(&self, traces: Vec<Result<Option<(u64, Vec<u64>)>>>) -> Result<(Option<anyhow::Error>, RecFinal)> {
+    fn inspect(&self, traces: Vec<Result<Option<RecChainFinal>>>) -> Result<(Option<anyhow::Error>, RecFinal)> {
         let mut rec = self.rec.lock().unwrap();
         rec.inspect_calls += 1;
         if self.faults.trace_inspect_err {
             rec.faults_fired.push("trace_inspect_err".into());
             return Err(anyhow!("simulated trace inspect failure"));
         }
+        drop(rec);
         let mut err = None;
         let mut chains = vec![];
+        let mut hm: Vec<Result<Option<HmChainFinal>>> = vec![];
+        let mut nd: Vec<Result<Option<NdChainFinal>>> = vec![];
         for t in traces {
             match t {
-                Ok(Some(c)) => chains.push(c),
+                Ok(Some(c)) => {
+                    chains.push((c.id, c.digests));
+                    match c.real {
+                        RealChainFinal::None => {}
+                        RealChainFinal::HashMap(x) => hm.push(Ok(Some(x))),
+                        RealChainFinal::Ndarray(x) => nd.push(Ok(Some(x))),
+                    }
+                }
                 Ok(None) => {}
                 Err(e) => {
                     if err.is_none() {
@@ -514,7 +657,20 @@ impl TraceStorage for RecTrace {
             }
         }
         chains.sort_by_key(|c| c.0);
-        Ok((err, RecFinal { chains }))
+        let real = match &self.real {
+            RealTrace::None => None,
+            RealTrace::HashMap(t) => Some(match t.inspect(hm) {
+                Ok((None, f)) => Ok(digest_hashmap(&f)),
+                Ok((Some(e), _)) => Err(format!("{e:#}")),
+                Err(e) => Err(format!("{e:#}")),
+            }),
+            RealTrace::Ndarray(t) => Some(match t.inspect(nd) {
+                Ok((None, f)) => Ok(digest_ndarray(&f)),
+                Ok((Some(e), _)) => Err(format!("{e:#}")),
+                Err(e) => Err(format!("{e:#}")),
+            }),
+        };
+        Ok((err, RecFinal { chains, real }))
     }
 }
 
@@ -543,11 +699,11 @@ pub fn record_digest(stats: &[(&str, Option<Value>)], draws: &[(&str, Option<Val
 }
 
 impl ChainStorage for RecChain {
-    type Finalized = (u64, Vec<u64>);
+    type Finalized = RecChainFinal;
 
     fn record_sample(
         &mut self,
-        _settings: &impl Settings,
+        settings: &impl Settings,
         stats: Vec<(&str, Option<Value>)>,
         draws: Vec<(&str, Option<Value>)>,
         info: &Progress,
@@ -560,6 +716,12 @@ impl ChainStorage for RecChain {
         }
         let digest = record_digest(&stats, &draws, info, true);
         let digest_nochain = record_digest(&stats, &draws, info, false);
+        // tee to the real backend first: its error is the call's error
+        match &mut self.real {
+            RealChain::None => {}
+            RealChain::HashMap(c) => c.record_sample(settings, stats.clone(), draws.clone(), info)?,
+            RealChain::Ndarray(c) => c.record_sample(settings, stats.clone(), draws.clone(), info)?,
+        }
         self.digests.push(digest);
         let seq = nuts_rs_verif_rt::clock::next_event();
         self.rec.lock().unwrap().records.push(RecordEvent {
@@ -582,7 +744,13 @@ impl ChainStorage for RecChain {
             rec.faults_fired.push(format!("chain_finalize_err@{}", self.chain));
             return Err(anyhow!("simulated chain finalize failure chain {}", self.chain));
         }
-        Ok((self.chain, self.digests))
+        drop(rec);
+        let real = match self.real {
+            RealChain::None => RealChainFinal::None,
+            RealChain::HashMap(c) => RealChainFinal::HashMap(c.finalize()?),
+            RealChain::Ndarray(c) => RealChainFinal::Ndarray(c.finalize()?),
+        };
+        Ok(RecChainFinal { id: self.chain, digests: self.digests, real })
     }
 
     fn inspect(&self) -> Result<Option<Self::Finalized>> {
@@ -590,7 +758,18 @@ impl ChainStorage for RecChain {
             self.rec.lock().unwrap().faults_fired.push(format!("chain_inspect_err@{}", self.chain));
             return Err(anyhow!("simulated chain inspect failure chain {}", self.chain));
         }
-        Ok(Some((self.chain, self.digests.clone())))
+        let real = match &self.real {
+            RealChain::None => RealChainFinal::None,
+            RealChain::HashMap(c) => match c.inspect()? {
+                Some(x) => RealChainFinal::HashMap(x),
+                None => RealChainFinal::None,
+            },
+            RealChain::Ndarray(c) => match c.inspect()? {
+                Some(x) => RealChainFinal::Ndarray(x),
+                None => RealChainFinal::None,
+            },
+        };
+        Ok(Some(RecChainFinal { id: self.chain, digests: self.digests.clone(), real }))
     }
 
     fn flush(&self) -> Result<()> {
@@ -601,6 +780,11 @@ impl ChainStorage for RecChain {
             rec.faults_fired.push(format!("flush_err@{k}"));
             return Err(anyhow!("simulated flush failure at call {k}"));
         }
-        Ok(())
+        drop(rec);
+        match &self.real {
+            RealChain::None => Ok(()),
+            RealChain::HashMap(c) => c.flush(),
+            RealChain::Ndarray(c) => c.flush(),
+        }
     }
 }
